@@ -126,6 +126,11 @@ def check(ctx):
             'res /e/{ \'id str `format: uuid` }?{ \'since str `format: date-time` } on get -> <headers={ \'Date str `format: date-time` }, uri>;\n',
         ]
         ncorpus = len(corpus)
+        # several unqualified imports exporting one name (K9: the later use wins): which one wins is the same in every process
+        twins = {"file:///w/%s.oal" % n: "let item = { 'from_%s! str };\nlet only_%s = num;\n" % (n, n) for n in "abcdef"}
+        twins["file:///w/main.oal"] = "".join('use "%s.oal";\n' % n for n in "abcdef") + "res /items on get -> <status=200, item>;\n"
+        ps.insert(0, {"mods": twins, "main": "file:///w/main.oal", "features": ["corpus"], "ast": None})
+        ncorpus += 1
         ps += progs.shared_corpus()
         for s in corpus:
             ps.insert(0, {"mods": {"file:///w/main.oal": s}, "main": "file:///w/main.oal", "features": ["corpus"], "ast": None})
